@@ -56,11 +56,15 @@ def cfg():
 @st.composite
 def case(draw):
     which = draw(st.integers(0, 9))
-    if which < 2:
-        # bare-symbol returns
+    if which < 3:
+        # bare-symbol / repeated-bit returns
         args = [["a", ["bool"]], ["b", ["int", 2]]]
         ret_e, ret_t = draw(st.sampled_from([(["v", "a"], ["bool"]), (["v", "b"], ["int", 2]), (["tup", [["v", "a"], ["idx", ["v", "b"], 1]]], ["tuple", [["bool"], ["bool"]]]),
-                                             (["tup", [["v", "a"], ["v", "a"]]], ["tuple", [["bool"], ["bool"]]])]))
+                                             (["tup", [["v", "a"], ["v", "a"]]], ["tuple", [["bool"], ["bool"]]]),
+                                             # repeated return bits on functions without a zero: multiplicities decide the minimisers
+                                             (["tup", [["v", "a"], ["v", "a"], ["not", ["bop", "and", [["v", "a"], ["idx", ["v", "b"], 0]]]]]], ["tuple", [["bool"], ["bool"], ["bool"]]]),
+                                             (["tup", [["not", ["v", "a"]], ["idx", ["v", "b"], 0], ["idx", ["v", "b"], 0], ["bop", "or", [["v", "a"], ["idx", ["v", "b"], 1]]]]], ["tuple", [["bool"]] * 4]),
+                                             (["tup", [["bin", "^", ["v", "a"], ["idx", ["v", "b"], 1]], ["bin", "^", ["v", "a"], ["idx", ["v", "b"], 1]], ["not", ["v", "a"]]]], ["tuple", [["bool"]] * 3])]))
         prog = {"name": "f", "args": args, "ret": ret_t, "body": [["return", ret_e]]}
     else:
         prog = draw(gen_prog.program(cfg()))
